@@ -600,7 +600,7 @@ func (x *smbCtx) unmarshalStmts(stmts []ast.Stmt, seenResetp *int, nested bool) 
 				good := true
 				for j := start; j < len(x.cmd.U); j++ {
 					switch x.cmd.U[j].Kind {
-					case "guard", "int", "u8", "bytes", "rest", "adv":
+					case "guard", "int", "u8", "bytes", "rest", "adv", "intarr":
 						x.cmd.U[j].Cond = "(UCWcEq " + k + ")"
 					case "opaque":
 					default:
@@ -639,6 +639,22 @@ func (x *smbCtx) unmarshalStmts(stmts []ast.Stmt, seenResetp *int, nested bool) 
 					if u, ok := x.readExpr(f, s.Rhs[0]); ok {
 						x.cmd.U = append(x.cmd.U, u)
 						continue
+					}
+					if u, ok := x.arrayLiteralRead(f, s.Rhs[0]); ok {
+						x.cmd.U = append(x.cmd.U, u)
+						continue
+					}
+					// c.F = make([]T, c.N)  directly in front of the counted loop that fills it
+					if ce, ok := isCall(s.Rhs[0], "make"); ok && len(ce.Args) == 2 && i+1 < len(stmts) {
+						if fs, ok := stmts[i+1].(*ast.ForStmt); ok {
+							if us, ok := x.countedLoop(fs); ok && us[0].Field == f {
+								if n, ok := x.lenExp(ce.Args[1]); ok && strings.HasSuffix(us[0].Len, " "+n+")") {
+									x.cmd.U = append(x.cmd.U, us...)
+									i++
+									continue
+								}
+							}
+						}
 					}
 				}
 				// local := expr  (padLen := int(c.X) ...)
@@ -682,6 +698,24 @@ func (x *smbCtx) unmarshalStmts(stmts []ast.Stmt, seenResetp *int, nested bool) 
 			}
 			x.opaqueU(st)
 		case *ast.ExprStmt:
+			// copy(c.F[:], S[offset:offset+K])  with F a [K]byte array: K one-byte elements
+			if ce, ok := isCall(s.X, "copy"); ok && len(ce.Args) == 2 {
+				if dst, ok := unparen(ce.Args[0]).(*ast.SliceExpr); ok && dst.Low == nil && dst.High == nil {
+					if f, ok := x.fieldOf(dst.X); ok {
+						if sl, ok := unparen(ce.Args[1]).(*ast.SliceExpr); ok && sl.High != nil {
+							stream := streamOfVar(identName(sl.X))
+							lo, ok1 := x.offsetPlus(sl.Low)
+							hi, ok2 := x.offsetPlus(sl.High)
+							ft := x.fieldType(f)
+							if stream != "" && ok1 && ok2 && lo == "(EConst 0)" && strings.HasPrefix(ft, "[") &&
+								hi == "(EConst "+ft[1:strings.Index(ft, "]")]+")" && (strings.HasSuffix(ft, "UCHAR") || strings.HasSuffix(ft, "byte")) {
+								x.cmd.U = append(x.cmd.U, uop{Stream: stream, Kind: "intarr", Field: f, Width: 1, Endian: "LE", Len: hi})
+								continue
+							}
+						}
+					}
+				}
+			}
 			// c.F.Unmarshal(S[offset : offset+n]) with the result ignored: faithful to a nested read only when the
 			// nested type has a fixed size and the window is exactly that size (the call cannot fail then)
 			if ce, ok := unparen(s.X).(*ast.CallExpr); ok && len(ce.Args) == 1 {
@@ -707,6 +741,105 @@ func (x *smbCtx) unmarshalStmts(stmts []ast.Stmt, seenResetp *int, nested bool) 
 			x.opaqueU(st)
 		}
 	}
+}
+
+// uintAt recognises  T(binary.E.UintW(S[offset+A : offset+B]))  and returns stream, endian, width in bytes, A, B
+func (x *smbCtx) uintAt(e ast.Expr) (stream, endian string, w int, lo, hi string, ok bool) {
+	e = unparen(e)
+	for {
+		ce, isCall := e.(*ast.CallExpr)
+		if !isCall || len(ce.Args) != 1 {
+			return
+		}
+		fn := identName(ce.Fun)
+		if strings.HasPrefix(fn, "binary.") && strings.Contains(fn, ".Uint") {
+			endian = "BE"
+			if strings.Contains(fn, "LittleEndian") {
+				endian = "LE"
+			}
+			fmt.Sscanf(fn[strings.Index(fn, ".Uint")+5:], "%d", &w)
+			w /= 8
+			sl, isSl := unparen(ce.Args[0]).(*ast.SliceExpr)
+			if !isSl || sl.High == nil {
+				return
+			}
+			stream = streamOfVar(identName(sl.X))
+			var ok1, ok2 bool
+			lo, ok1 = x.offsetPlus(sl.Low)
+			hi, ok2 = x.offsetPlus(sl.High)
+			ok = stream != "" && ok1 && ok2
+			return
+		}
+		e = unparen(ce.Args[0])
+	}
+}
+
+// arrayLiteralRead recognises  c.F = [n]T{ T(Uint(S[offset:offset+w])), T(Uint(S[offset+w:offset+2w])), ... }
+func (x *smbCtx) arrayLiteralRead(f string, e ast.Expr) (uop, bool) {
+	cl, ok := unparen(e).(*ast.CompositeLit)
+	if !ok || len(cl.Elts) == 0 {
+		return uop{}, false
+	}
+	if _, isArr := cl.Type.(*ast.ArrayType); !isArr {
+		return uop{}, false
+	}
+	var u uop
+	for i, el := range cl.Elts {
+		stream, endian, w, lo, hi, ok := x.uintAt(el)
+		if !ok || lo != fmt.Sprintf("(EConst %d)", i*w) || hi != fmt.Sprintf("(EConst %d)", (i+1)*w) {
+			return uop{}, false
+		}
+		if i == 0 {
+			u = uop{Stream: stream, Kind: "intarr", Field: f, Width: w, Endian: endian}
+		} else if u.Stream != stream || u.Width != w || u.Endian != endian {
+			return uop{}, false
+		}
+	}
+	u.Len = fmt.Sprintf("(EConst %d)", len(cl.Elts)*u.Width)
+	return u, true
+}
+
+// countedLoop recognises
+//   for i := 0; i < int(c.N); i++ { c.F[i] = T(binary.E.UintW(S[offset : offset+w])); offset += w }
+// (preceded by  c.F = make([]T, c.N), which the caller has skipped): w*N bytes are read as N integers and passed
+func (x *smbCtx) countedLoop(s *ast.ForStmt) ([]uop, bool) {
+	init, ok1 := s.Init.(*ast.AssignStmt)
+	cond, ok2 := s.Cond.(*ast.BinaryExpr)
+	post, ok3 := s.Post.(*ast.IncDecStmt)
+	if !ok1 || !ok2 || !ok3 || len(init.Lhs) != 1 || len(s.Body.List) != 2 || cond.Op != token.LSS || post.Tok != token.INC {
+		return nil, false
+	}
+	iv := identName(init.Lhs[0])
+	if iv == "" || src(x.lp.fset, init.Rhs[0]) != "0" || identName(cond.X) != iv || identName(post.X) != iv {
+		return nil, false
+	}
+	cnt, ok := x.lenExp(cond.Y)
+	if !ok {
+		return nil, false
+	}
+	as, ok := s.Body.List[0].(*ast.AssignStmt)
+	if !ok || len(as.Lhs) != 1 || len(as.Rhs) != 1 || as.Tok != token.ASSIGN {
+		return nil, false
+	}
+	ix, ok := as.Lhs[0].(*ast.IndexExpr)
+	if !ok || identName(ix.Index) != iv {
+		return nil, false
+	}
+	f, ok := x.fieldOf(ix.X)
+	if !ok {
+		return nil, false
+	}
+	stream, endian, w, lo, hi, ok := x.uintAt(as.Rhs[0])
+	if !ok || lo != "(EConst 0)" || hi != fmt.Sprintf("(EConst %d)", w) {
+		return nil, false
+	}
+	adv, ok := s.Body.List[1].(*ast.AssignStmt)
+	if !ok || identName(adv.Lhs[0]) != "offset" || adv.Tok != token.ADD_ASSIGN || src(x.lp.fset, adv.Rhs[0]) != fmt.Sprint(w) {
+		return nil, false
+	}
+	total := fmt.Sprintf("(EMul (EConst %d) %s)", w, cnt)
+	return []uop{{Stream: stream, Kind: "intarr", Field: f, Width: w, Endian: endian, Len: total},
+		{Stream: stream, Kind: "adv", Len: total}}, true
 }
 
 // readExpr recognises the right-hand sides of field reads.
@@ -1135,6 +1268,8 @@ func coqUop(u uop) string {
 		return fmt.Sprintf("UBytes %s %s %s", coqStream(u.Stream), coqStr(u.Field), u.Len)
 	case "rest":
 		return fmt.Sprintf("UBytes %s %s ERest", coqStream(u.Stream), coqStr(u.Field))
+	case "intarr":
+		return fmt.Sprintf("UIntArr %s %s %d %s %s", coqStream(u.Stream), coqStr(u.Field), u.Width, coqEndian(u.Endian), u.Len)
 	case "nested":
 		return fmt.Sprintf("UNested %s %s (%s) %s", coqStream(u.Stream), coqStr(u.Field), coqType(u.Type), u.Len)
 	case "nested0":
